@@ -54,3 +54,10 @@ S["C07"] = dict(title="Inbound acknowledgements go out only after the applicatio
   assumptions=_inasm,
   bounds={"quick":"<= 2 inbound packets per stream, every return followed by one more ReadSlices","thorough":"as C06 thorough"},
   outside=["concurrent outbound requests (wire integrity is C08's token argument)","write failures of the acknowledgement itself (covered in C10's harness)"])
+S["C02"] = dict(title="Restart resumes exactly the unacknowledged set, at any stop point, repeatedly", technique=TECH+"; AdoptSession run on an arbitrary store content a stop can leave (ring positions, storage sequence numbers and List order free), observed through resend, two generations", harnesses=[
+    H("verifH_C02_adopt", "adopt an arbitrary PINV store -> observe; publish; stop; adopt again -> observe", T({"W":1}), T({"W":2}, time_sec=2400), ("adopted","adopted-twice")),
+  ],
+  assumptions=["PINV (DESIGN 4.1): what a stop can leave is one contiguous run per kind (QoS1 PUBLISH, PUBREL, QoS2 PUBLISH), the PUBREL run directly before the QoS2 PUBLISH run, storage sequence numbers ascending within a run; that every operation re-establishes it is shown by the C01 harnesses (the record written/deleted per operation) — paper step",
+    "the store honours the Persistence contract (FileSystem's adherence under stops is C19)", "sort.Slice is modelled as insertion sort calling the real less closure"],
+  bounds={"quick":"<= 1 record per run (3 runs), + marker, 3 List orders, 3 limit configurations, 2 generations","thorough":"<= 2 records per run"},
+  outside=["more than one record with a Save in progress","stores violating the contract"])
